@@ -709,6 +709,12 @@ func isNumeric(sys System, s string) (int64, bool) {
 			return 0, false
 		}
 	}
+	// A prerelease identifier may contain hyphens, so "-4" can reach us. It
+	// is alphanumeric, not a number: only digit strings are numeric. (NuGet,
+	// which parses with a signed integer parser, is the exception.)
+	if sys != NuGet && len(s) > 0 && (s[0] == '-' || s[0] == '+') {
+		return 0, false
+	}
 	var (
 		n   int64
 		err error
